@@ -117,8 +117,8 @@ fn compute_diffusion_map<F: Float>(
     // symmetric normalisation D^-(1/2 + alpha) K D^-(1/2 + alpha), shared by both branches
     let d2 = d.mapv(|x| x.powf(F::cast(0.5 + alpha)));
 
-    let (vals, vecs) = if kernel.size() < 5 * embedding_size + 1 {
-        // use full eigenvalue decomposition for small problem sizes
+    // full eigenvalue decomposition without the first (trivial) eigenvalue/eigenvector
+    let full_decomposition = || {
         let mut matrix = kernel.dot(&Array2::from_diag(&d2).view());
         matrix
             .rows_mut()
@@ -142,6 +142,11 @@ fn compute_diffusion_map<F: Float>(
             vals.slice_move(s![1..=embedding_size]),
             vecs.slice_move(s![.., 1..=embedding_size]),
         )
+    };
+
+    let (vals, vecs) = if kernel.size() < 5 * embedding_size + 1 {
+        // use full eigenvalue decomposition for small problem sizes
+        full_decomposition()
     } else {
         // calculate truncated eigenvalue decomposition
         let x = guess
@@ -179,18 +184,21 @@ fn compute_diffusion_map<F: Float>(
             TruncatedOrder::Largest,
         );
 
-        let (vals, vecs) = match result {
+        match result {
+            // cut away first eigenvalue/eigenvector
             #[cfg(feature = "blas")]
-            LobpcgResult::Ok(vals, vecs, _) | LobpcgResult::Err(vals, vecs, _, _) => (vals, vecs),
-            #[cfg(not(feature = "blas"))]
-            LobpcgResult::Ok(lobpcg) | LobpcgResult::Err((_, Some(lobpcg))) => {
-                (lobpcg.eigvals, lobpcg.eigvecs)
+            LobpcgResult::Ok(vals, vecs, _) => {
+                (vals.slice_move(s![1..]), vecs.slice_move(s![.., 1..]))
             }
-            _ => panic!("Eigendecomposition failed!"),
-        };
-
-        // cut away first eigenvalue/eigenvector
-        (vals.slice_move(s![1..]), vecs.slice_move(s![.., 1..]))
+            #[cfg(not(feature = "blas"))]
+            LobpcgResult::Ok(lobpcg) => (
+                lobpcg.eigvals.slice_move(s![1..]),
+                lobpcg.eigvecs.slice_move(s![.., 1..]),
+            ),
+            // the iteration broke down before it reached the tolerance: its best iterate is not
+            // an eigendecomposition, compute the full one instead
+            _ => full_decomposition(),
+        }
     };
 
     let (vals, mut vecs): (Array1<F>, _) = (vals.without_lapack(), vecs.without_lapack());
